@@ -1,6 +1,10 @@
 (* Comparator used by the generated run/cases_C12_*.v files: replays one recorded store history on the model of
    model/Db.v and compares every recorded answer of the implementation.  Differential-testing aid only; no theorem
-   depends on it. *)
+   depends on it.
+   Byte-exactness without shipping values twice: every stored value is the Marshal output of one operation of the
+   history (checks/c12.py verifies that for the implementation's answers and names the operation by its index); the
+   model's answer is compared with the value the MODEL stored for that operation, and the model's stored value is
+   compared with the recorded Marshal output when the operation is replayed. *)
 From Coq Require Import List ZArith Bool Arith.
 From Coq Require Import Strings.Byte.
 From WH Require Import lib.Bytes lib.Wire lib.Digits gen.Extracted model.Vaa model.Db.
@@ -8,90 +12,117 @@ Import ListNotations.
 Open Scope Z_scope.
 
 Inductive dop :=
-| St (b : bytes)                      (* a well-formed VAA, given by its encoding; the call returned nil *)
-| StV (v : vaa) (panicked : bool).    (* any VAA, given by its fields *)
+| St (b : bytes)                                   (* a well-formed VAA, given by its Marshal output; the call returned nil *)
+| StV (v : vaa) (mb : bytes) (panicked : bool).    (* any VAA, given by its fields; mb = its Marshal output *)
 
-(* result codes of the harness: 0 ok, 1 not found, 2 invalid argument, 3 internal / error, 4 panic, 5 does not terminate *)
-Inductive dquery :=
-| QGet (ec : Z) (ai : nat) (tc sq : Z) (code h : Z)
-| QGap (ec : Z) (ai : nat) (tc : Z) (code h first last : Z)
-| QGov (ec : Z) (ai : nat) (seqs : list Z) (code h : Z)
-| QBatch (ec : Z) (ai : nat) (tc : Z) (seqs : list Z) (code h : Z)
-| QRpcGet (ec : Z) (ahex : bytes) (tc sq : Z) (code h : Z)
-| QRpcBatch (ec : Z) (ahex : bytes) (tc : Z) (seqs : list Z) (code h : Z)
-| QRpcGov (ec : Z) (ai : nat) (seqs : list Z) (code h : Z)
-| QMissing (ec : Z) (ahex : bytes) (tc : Z) (code h first last : Z).
+Definition beq (a b : bytes) : bool := match bytes_cmp a b with Eq => true | _ => false end.
 
-Definition run_op (s : option store) (o : dop) : option store :=
-  match s with
+(* state of a replay: the store and, newest first, the value each operation stored ([] for a panicking call) *)
+Definition rstate := (store * list bytes)%type.
+
+Definition run_op (st : option rstate) (o : dop) : option rstate :=
+  match st with
   | None => None
-  | Some s =>
+  | Some (s, vals) =>
     match o with
     | St b => match unmarshal b with
-              | Ok v => match store_vaa s v with Stored s' => Some s' | StorePanic => None end
+              | Ok v => if beq (marshal v) b then
+                          match store_vaa s v with Stored s' => Some (s', b :: vals) | StorePanic => None end
+                        else None
               | Err _ => None
               end
-    | StV v p => match store_vaa s v with
-                 | Stored s' => if p then None else Some s'
-                 | StorePanic => if p then Some s else None
-                 end
+    | StV v mb p => if beq (marshal v) mb then
+                      match store_vaa s v with
+                      | Stored s' => if p then None else Some (s', mb :: vals)
+                      | StorePanic => if p then Some (s, [] :: vals) else None
+                      end
+                    else None
     end
   end.
 
-Definition h_seqs (l : list Z) : Z := hash_bytes (flat_map (be 8) l).
-Definition h_gov (l : list goventry) : Z :=
-  hash_bytes (flat_map (fun e => be 2 (g_tc e) ++ be 8 (g_seq e) ++ be 4 (Z.of_nat (length (g_bytes e))) ++ g_bytes e) l).
-Definition h_batch (l : list (Z * bytes)) : Z :=
-  hash_bytes (flat_map (fun e => be 8 (fst e) ++ be 4 (Z.of_nat (length (snd e))) ++ snd e) l).
-Definition h_strs (l : list bytes) : Z :=
-  hash_bytes (flat_map (fun e => be 4 (Z.of_nat (length e)) ++ e) l).
+(* result codes of the harness: 0 ok, 1 not found, 2 invalid argument, 3 internal / error, 4 panic, 5 does not terminate *)
+(* expected entries: (target chain, sequence, index of the operation whose value is returned) *)
+Definition xent := (Z * Z * nat)%type.
+(* expected number lists as inclusive intervals *)
+Definition ivs := list (Z * Z).
+
+Inductive dquery :=
+| QGet (ec : Z) (ai : nat) (tc sq : Z) (code : Z) (j : nat)
+| QGap (ec : Z) (ai : nat) (tc : Z) (code : Z) (resp : ivs) (first last : Z)
+| QGov (ec : Z) (ai : nat) (seqs : list Z) (code : Z) (ents : list xent)
+| QBatch (ec : Z) (ai : nat) (tc : Z) (seqs : list Z) (code : Z) (ents : list xent)
+| QRpcGet (ec : Z) (ahex : bytes) (tc sq : Z) (code : Z) (j : nat)
+| QRpcBatch (ec : Z) (ahex : bytes) (tc : Z) (seqs : list Z) (code : Z) (ents : list xent)
+| QRpcGov (ec : Z) (ai : nat) (seqs : list Z) (code : Z) (ents : list xent)
+| QMissing (ec : Z) (ahex : bytes) (tc : Z) (code : Z) (pre : bytes) (resp : ivs) (first last : Z).
+
+Fixpoint list_eqb {A B} (f : A -> B -> bool) (l : list A) (m : list B) : bool :=
+  match l, m with
+  | [], [] => true
+  | x :: l', y :: m' => f x y && list_eqb f l' m'
+  | _, _ => false
+  end.
+
+Definition expand (l : ivs) : list Z := flat_map (fun p => zrange (Z.to_nat (snd p - fst p + 1)) (fst p)) l.
 
 Definition rcode (e : rpcerr) : Z := match e with RNotFound => 1 | RInvalidArgument => 2 | RInternal => 3 end.
 
-Definition check_query (pool : list bytes) (s : store) (q : dquery) : bool :=
-  let addr ai := nth ai pool [] in
+Section Check.
+Variable pool : list bytes.
+Variable s : store.
+Variable vals : list bytes.   (* oldest first *)
+
+Definition val (j : nat) : bytes := nth j vals [].
+Definition addr (ai : nat) : bytes := nth ai pool [].
+
+Definition gov_eq (e : goventry) (x : xent) : bool :=
+  let '(t, q, j) := x in (g_tc e =? t) && (g_seq e =? q) && beq (g_bytes e) (val j).
+Definition batch_eq (e : Z * bytes) (x : xent) : bool :=
+  let '(_, q, j) := x in (fst e =? q) && beq (snd e) (val j).
+
+Definition check_query (q : dquery) : bool :=
   match q with
-  | QGet ec ai tc sq code h =>
+  | QGet ec ai tc sq code j =>
     match get_signed_vaa_bytes s {| i_ec := ec; i_ea := addr ai; i_tc := tc; i_seq := sq |} with
-    | Found b => (code =? 0) && (hash_bytes b =? h)
+    | Found b => (code =? 0) && beq b (val j)
     | NotFound => code =? 1
     end
-  | QGap ec ai tc code h first last =>
+  | QGap ec ai tc code resp first last =>
     match find_gap s ec (addr ai) tc with
-    | GapOk resp f l => (code =? 0) && (h_seqs resp =? h) && (f =? first) && (l =? last)
+    | GapOk r f l => (code =? 0) && list_eqb Z.eqb r (expand resp) && (f =? first) && (l =? last)
     | GapErr => code =? 3
     | GapLoop => code =? 5
     end
-  | QGov ec ai seqs code h =>
+  | QGov ec ai seqs code ents =>
     match gov_batch s ec (addr ai) seqs with
-    | GovOk l => (code =? 0) && (h_gov l =? h)
+    | GovOk l => (code =? 0) && list_eqb gov_eq l ents
     | GovErr => code =? 3
     end
-  | QBatch ec ai tc seqs code h =>
-    (code =? 0) && (h_batch (flat_map (fun q => match get_signed_vaa_bytes s {| i_ec := ec; i_ea := addr ai; i_tc := tc; i_seq := q |} with
-                                               | Found b => [(q, b)] | NotFound => [] end) seqs) =? h)
-  | QRpcGet ec ahex tc sq code h =>
+  | QBatch ec ai tc seqs code ents =>
+    (code =? 0) && list_eqb batch_eq (batch_lookup s ec (addr ai) tc seqs) ents
+  | QRpcGet ec ahex tc sq code j =>
     match rpc_get_signed_vaa s ec ahex tc sq with
-    | ROk b => (code =? 0) && (hash_bytes b =? h)
+    | ROk b => (code =? 0) && beq b (val j)
     | RErr e => code =? rcode e
     end
-  | QRpcBatch ec ahex tc seqs code h =>
+  | QRpcBatch ec ahex tc seqs code ents =>
     match rpc_nongov_batch s ec ahex tc seqs with
-    | ROk l => (code =? 0) && (h_batch l =? h)
+    | ROk l => (code =? 0) && list_eqb batch_eq l ents
     | RErr e => code =? rcode e
     end
-  | QRpcGov ec ai seqs code h =>
+  | QRpcGov ec ai seqs code ents =>
     match rpc_gov_batch s ec (addr ai) seqs with
-    | ROk l => (code =? 0) && (h_gov l =? h)
+    | ROk l => (code =? 0) && list_eqb gov_eq l ents
     | RErr e => code =? rcode e
     end
-  | QMissing ec ahex tc code h first last =>
+  | QMissing ec ahex tc code pre resp first last =>
     match find_missing s ec ahex tc with
-    | MissOk ids f l => (code =? 0) && (h_strs ids =? h) && (f =? first) && (l =? last)
+    | MissOk ids f l => (code =? 0) && list_eqb beq ids (map (fun q => pre ++ dec q) (expand resp)) && (f =? first) && (l =? last)
     | MissErr e => code =? rcode e
     | MissLoop => code =? 5
     end
   end.
+End Check.
 
 (* one case = address pool, store history, answered queries; the result is the list of (1-based) indices of the queries whose
    recorded answer differs from the model's, [0] when the history itself is not reproduced *)
@@ -99,9 +130,9 @@ Definition dcase := (list bytes * list dop * list dquery)%type.
 
 Definition bad_queries (c : dcase) : list Z :=
   let '(pool, ops, qs) := c in
-  match fold_left run_op ops (Some []) with
+  match fold_left run_op ops (Some ([], [])) with
   | None => [0]
-  | Some s => map (fun i => i + 1) (bad (check_query pool s) qs)
+  | Some (s, vals) => let vals' := rev vals in map (fun i => i + 1) (bad (check_query pool s vals') qs)
   end.
 
 Definition ok (c : dcase) : bool := match bad_queries c with [] => true | _ => false end.
